@@ -88,6 +88,10 @@ def items(tier):
         for sel, pks in ((["dc"], [""]), (["de"], ["p/q"]), (["de", "dc"], ["p", ""]), (["dk", "de"], ["", "p/q"]), (["dc", "dh", "de"], ["p", "", "p/q"])):
             for comb_pkg in PKGS:
                 out.append({"sel": sel, "comb_pkg": comb_pkg, "dep_pkgs": pks, "pre": "absent", "cached": False, "layout": layout})
+    # special histories: the COND file is edited between two runs so that the entry NAME stays and the dependency changes package;
+    # a cached experiment whose recorded version directory is gone, listed before other dependencies
+    out.append({"special": "retarget"})
+    out.append({"special": "missing-cached-dir"})
     # crash points of a link-updating re-run
     for sel, pk in ((["de"], [""]), (["de", "dc"], ["p", ""]), (["dk", "de"], ["", "p/q"]), (["de", "dg", "dc"], ["p", "p", "p"])):
         for comb_pkg in ("", "p"):
@@ -152,7 +156,62 @@ def crash_item(item, tier):
     return res
 
 
+def special_item(item):
+    res = {"evals": 0, "sigs": set(), "states": set(), "transitions": 0, "violations": [], "counters": {}, "sample": None}
+    found = {}
+
+    def run(root, target, t):
+        vk = vkmod.VK(behaviours={}, project_root=root)
+        r = driver.run_cli(["run", target], root, vk=vk, git=fakegit.NO_GIT, clock=driver.Clock(t))
+        res["evals"] += 1
+        res["transitions"] += 1
+        return r, {e[2]: e[3] for e in vk.log if e[0] == "spawn"}
+
+    def entries(root, comb_out):
+        d = os.path.join(root, comb_out)
+        return {x: os.path.realpath(os.path.join(d, x)) for x in sorted(os.listdir(d))} if os.path.isdir(d) else {}
+
+    if item["special"] == "retarget":
+        for kind in ("run_command", "run_experiment"):
+            files = {"old/COND": '%s(name="results", run="./r.sh")\n' % kind, "new/COND": '%s(name="results", run="./r.sh")\n' % kind,
+                     "COND": 'combine(name="all", deps=["//old:results"])\nrun_command(name="sib", run="./s.sh", deps=["//old:results"])\ngroup(name="top", deps=[":all", ":sib"])\n'}
+            root = driver.fresh_project(files, name="c18s")
+            run(root, "//:top", 1_700_000_010)
+            with open(os.path.join(root, "COND"), "w") as f:
+                f.write(files["COND"].replace("//old:results", "//new:results"))
+            r, spawns = run(root, "//:top", 1_700_000_020)
+            res["sigs"].add("retarget:" + kind)
+            want = spawns.get("//new:results", {}).get("out")
+            got = entries(root, "cond-out/all.task")
+            if r.exit != 0 or r.exc is not None:
+                found.setdefault("special:retarget:run-failed", ("second run exits %r %r: %s" % (r.exit, r.exc, r.err_text[-200:]), dict(item)))
+            elif want is None or got.get("results") != os.path.realpath(want):
+                found.setdefault("special:retarget:wrong-target", ("after the dependency of the combine was changed from //old:results to //new:results (%s) the entry "
+                                                                   "'results' resolves to %s, the dependency wrote %s" % (kind, got.get("results"), want), dict(item)))
+    else:
+        files = {"COND": 'run_experiment(name="de", run="./de.sh")\nrun_command(name="dc", run="./dc.sh")\nrun_experiment(name="dx", run="./dx.sh")\n'
+                         'combine(name="all", deps=[":de", ":dc", ":dx"])\nrun_command(name="sib", run="./s.sh", deps=[":de", ":dc", ":dx"])\n'
+                         'group(name="top", deps=[":all", ":sib"])\n'}
+        # //:de has a recorded version whose directory was removed by hand
+        root = driver.fresh_project(files, name="c18s", index_rows=[("//:de", 1_600_000_000, None, 0)])
+        r, spawns = run(root, "//:top", 1_700_000_010)
+        res["sigs"].add("missing-cached-dir")
+        got = entries(root, "cond-out/all.task")
+        want = {k: os.path.realpath(spawns["//:" + k]["out"]) for k in ("dc", "dx") if "//:" + k in spawns}
+        if r.exit != 0 or r.exc is not None:
+            found.setdefault("special:missing-cached-dir:run-failed", ("run exits %r %r: %s" % (r.exit, r.exc, r.err_text[-200:]), dict(item)))
+        elif {k: got.get(k) for k in want} != want or len(want) != 2:
+            found.setdefault("special:missing-cached-dir:entries", ("a cached dependency without its directory is listed first: combine entries %s, expected entries "
+                                                                    "for the dependencies that have output %s" % (got, want), dict(item)))
+    res["sample"] = {"special": item["special"]}
+    for key, (what, a) in found.items():
+        res["violations"].append({"key": key, "what": what, "artefact": a})
+    return res
+
+
 def run_item(item, tier):
+    if item.get("special"):
+        return special_item(item)
     if item.get("crash"):
         return crash_item(item, tier)
     res = {"evals": 0, "sigs": set(), "states": set(), "transitions": 0, "violations": [], "counters": {}, "sample": None}
